@@ -136,6 +136,10 @@ pub fn main(args: &[String]) {
                 a = act("keyswitch");
                 let other: Vec<String> = have_ct.iter().filter(|n| key_of.get(*n) == Some(&2)).cloned().collect();
                 a["a"] = json!(if !other.is_empty() && rng.gen_range(0..10) < 9 { pick(&mut rng, &other).clone() } else { pick(&mut rng, &have_ct).clone() });
+            } else if r < 26 {
+                a = act("reload");
+                a["a"] = json!(pick(&mut rng, &have_ct));
+                a["mode"] = json!(if rng.gen_bool(0.5) { "compact" } else { "full" });
             } else if r < 27 {
                 a = act("expand");
                 let seeded: Vec<String> = have_ct.iter().filter(|n| is_seeded(ct_of(&pool, n))).cloned().collect();
